@@ -654,7 +654,9 @@ def style_matches(cell, exp):
             if not (got and got[0] == "idx" and 16 <= got[1] <= 255):
                 return False
             pr = palette_rgb(got[1])
-            if sum(abs(a - b) for a, b in zip(pr, want[1])) > 120:
+            # the quantisation (ansi_colours, perceptual distance) is trusted; this is only a sanity bound:
+            # the dark end of the 6x6x6 cube has steps of 95, so a channel may legitimately be far off
+            if max(abs(a - b) for a, b in zip(pr, want[1])) > 100:
                 return False
             if want[1] in [palette_rgb(n) for n in range(16, 256)] and pr != want[1]:
                 return False
@@ -693,7 +695,7 @@ def binary_oracle(ctx, rep):
         baseline[tc] = b
 
     jobs = []
-    nrun = ctx.n(140, 3000)
+    nrun = ctx.n(320, 3000)
     for k in range(nrun):
         tc = k % 2
         assign = {}
@@ -714,7 +716,7 @@ def binary_oracle(ctx, rep):
     small = [""] + VOCAB14 + [" ".join(t) for t in itertools.product(VOCAB14, repeat=2)]
     small = [s for s in small if oracle_parse(s) != "error" and not oracle_parse(s)["raw"] and not oracle_parse(s)["omit"]]
     rng.shuffle(small)
-    for k, s in enumerate(small[:ctx.n(60, len(small))]):
+    for k, s in enumerate(small[:ctx.n(128, len(small))]):
         jobs.append(({opts[k % len(opts)]: s}, k % 2))
 
     def run(job):
@@ -785,8 +787,8 @@ def show_config_round_trip(ctx, rep):
         # every single attribute once (this is where a word missing from Display shows), then random
         pool = [a + " red" for a in ATTR_WORDS] + [a for a in ATTR_WORDS]
         rng.shuffle(pool)
-        n_attr = ctx.n(3, len(pool))
-        cand = pool[:n_attr] + [gen_style(rng, 4) for _ in range(ctx.n(5, 60))]
+        n_attr = ctx.n(4, len(pool))
+        cand = pool[:n_attr] + [gen_style(rng, 4) for _ in range(ctx.n(8, 60))]
         if o == SHOWCFG_OPTS[0]:
             cand = [a + " red" for a in ATTR_WORDS] + cand
         for s in cand:
